@@ -277,6 +277,17 @@ func init() {
 		e.curG(c).daemon = true
 		return nil
 	}
+	// verifDormant parks the calling goroutine (an environment action, e.g. a datagram arriving) until
+	// the scheduler picks it at a choice point (preemption, recursive lock) or, at the latest, when
+	// nothing else can run.
+	h["verifDormant"] = func(e *Exec, c *frame, fn *ssa.Function, a []Value) Value {
+		g := e.curG(c)
+		g.dormant = true
+		g.daemon = true
+		e.blockUntil(g, "dormant", func() bool { return !g.dormant })
+		g.daemon = false
+		return nil
+	}
 	h["verifNumGoroutinesBlocked"] = func(e *Exec, c *frame, fn *ssa.Function, a []Value) Value {
 		n := 0
 		for _, g := range e.sched.gs {
